@@ -11,7 +11,7 @@ for extra in glob.glob('/verif/work/validate_*.log'):
         m = re.match(r'RESULT seeded/(\S+): (.*)', line)
         if m: val[m.group(1)] = m.group(2).strip()
 det = {}
-for f in ['/verif/work/detect_all.log'] + glob.glob('/verif/work/detect_*.log'):
+for f in ['/verif/work/detect_all.log'] + sorted(x for x in glob.glob('/verif/work/detect_*.log') if not x.endswith('detect_all.log')):
     if not os.path.exists(f): continue
     for line in open(f):
         m = re.match(r'DETECT (\S+) (C\d\d) rc=(\d+) (\d+) violation lines', line)
@@ -43,4 +43,10 @@ for d in sorted(glob.glob('/verif/seeded/*/')):
         },
     }
     json.dump(meta, open(d + 'meta.json', 'w'), indent=1, ensure_ascii=False)
+# my own catalogue (not independent): results into info.json
+for d in sorted(glob.glob('/verif/seeded_own/*/')):
+    mid = os.path.basename(d.rstrip('/'))
+    info = json.load(open(d + 'info.json'))
+    info["checks_run_against_it"] = det.get(mid, {})
+    json.dump(info, open(d + 'info.json', 'w'), indent=1, ensure_ascii=False)
 print(len(glob.glob('/verif/seeded/*/meta.json')), "meta files")
